@@ -269,7 +269,27 @@ impl DiskDevices {
             .mount_points
             .sort_by_key(|(p, _)| cmp::Reverse(p.component_count()));
 
+        // Verification hook: pin the detected kind of every device, so that the HDD / SSD / unknown
+        // code paths are reachable on any sandbox disk.
+        #[cfg(fclones_verif)]
+        if let Some(kind) = Self::verif_pinned_kind() {
+            for d in result.devices.iter_mut() {
+                d.disk_kind = kind;
+                d.parallelism = Self::get_parallelism(&d.name, kind, pool_sizes);
+            }
+        }
+
         result
+    }
+
+    #[cfg(fclones_verif)]
+    fn verif_pinned_kind() -> Option<DiskKind> {
+        match std::env::var("FCLONES_VERIF_DISK_KIND").ok()?.as_str() {
+            "ssd" => Some(DiskKind::SSD),
+            "hdd" => Some(DiskKind::HDD),
+            "unknown" => Some(DiskKind::Unknown(-1)),
+            _ => None,
+        }
     }
 
     /// Returns the mount point holding given path
